@@ -317,6 +317,7 @@ ApiView(S) == [h \in Holes |->
                  ELSE
                  [live |-> TRUE,
                   names |-> KeyNames(GetRec(S, h)),
+                  children |-> [i \in DOMAIN S.hs[h].ch |-> S.hs[h].ch[i].name],     \* Data objects in hole.children
                   vals |-> [k \in DOMAIN GetRec(S, h).keys |->
                               [n |-> GetRec(S, h).keys[k].n, v |-> ReadLive(S, h, GetRec(S, h).keys[k].n)]],
                   pgs |-> [i \in DOMAIN S.hs[h].pgs |->
@@ -390,7 +391,8 @@ AsBuiltTable(S, pgname, emptyRaises) ==
 PredTable(S, pgname) == IF Dev("TableByLabel") THEN AsBuiltTable(S, pgname, Dev("EmptyTableRaises"))
                         ELSE IdealTable(S, pgname, Dev("EmptyTableRaises"))
 TableView(S) == [p \in PgNames |-> [pred |-> PredTable(S, p), ideal |-> IdealTable(S, p, FALSE),
-                                    loose |-> Dev("StalePgIdCache") /\ StaleCache(S)]]
+                                    loose |-> Dev("StalePgIdCache") /\ StaleCache(S),
+                                    dirty |-> \E h \in LiveHoles(S) : Unclean(S, h)]]
 
 \* ------------------------------------------------------------------ behaviour
 EmptyStore == [gch |-> <<>>, hs |-> [h \in Holes |-> NoHole], attrs |-> <<>>, akeys |-> <<>>, objIds |-> <<>>,
